@@ -194,10 +194,11 @@ func init() {
 	register(&diffProp{
 		id: "C03",
 		fams: []famSpec{
-			{Name: "shadow", Quick: 1000, Thorough: 20000, Gen: famShadow, Opts: ls, Variants: pipelined},
+			// every unit count: which instructions execute in the last cycles before a late branch resolves depends on it
+			{Name: "shadow", Quick: 1000, Thorough: 20000, Gen: famShadow, Opts: ls, Variants: pipelined, AllCfg: true},
 			{Name: "mixed", Quick: 200, Thorough: 5000, Gen: famMixed, Opts: ls, Variants: pipelined},
 		},
-		rule:   "family 'shadow': prefix (optionally a cache-missing load feeding the branch) . conditional branch or j/jal/jalr . 1-6 shadow instructions (ALU writes to live registers, stores hit/miss, loads incl. out-of-bounds addresses, jal link writes, div by zero) . join . suffix copying registers/bytes to observable places; 3 of 4 cases make the branch taken; every fourth case has two branches in flight (a late outer branch, a slow wrong-path register writer, a younger branch that resolves at once), half of the cases have 1-3 independent missing loads and 0-6 pad instructions ahead of the branch so that shadow instructions execute in the last cycles before it resolves; plus 200 / 5000 'mixed' programs (jumps, shared subroutines returning through jalr). Oracle: final state + lockstep + no store performed by a squashed instruction. Non-trivial/distinct as in C01.",
+		rule:   "family 'shadow' (on every configuration, also in the quick tier): prefix (optionally a cache-missing load feeding the branch) . conditional branch or j/jal/jalr . 1-6 shadow instructions (ALU writes to live registers, stores hit/miss, loads incl. out-of-bounds addresses, jal link writes, div by zero) . join . suffix copying registers/bytes to observable places; 3 of 4 cases make the branch taken; every fourth case has two branches in flight (a late outer branch, a slow wrong-path register writer, a younger branch that resolves at once), half of the cases have 1-3 independent missing loads and 0-6 pad instructions ahead of the branch so that shadow instructions execute in the last cycles before it resolves; plus 200 / 5000 'mixed' programs (jumps, shared subroutines returning through jalr). Oracle: final state + lockstep + no store performed by a squashed instruction. Non-trivial/distinct as in C01.",
 		assume: []string{diffAssume},
 		minEv:  []string{"squashed", "squashed-executed"},
 	})
